@@ -11,11 +11,12 @@ a channel, then any sequence of
 * `set_noise_var(None | σ²)`         (`Op.setNoiseVar`, Blast family only)
 * `encode(x)`, `decode(Y)`           (`Op.encode`, `Op.decode`)
 * `_calc_precoder(self._channel)`, `_calc_receive_filter(self._channel, v)`
-  — the pair `calc_linear_SINRs(v)` works with (`Op.filters v`)
+  — the pair `calc_linear_SINRs(v)` works with (`Op.filters v`; `v = none` is the omitted / `None` argument, which means `0.0`)
 * `calc_post_processing_linear_SINRs(self._channel, W, G_H, v)` for that pair
   (`Op.sinr v`; `Alamouti.calc_linear_SINRs(v)` for Alamouti);
 * reading the stored `_channel` (always 2-D, whichever way and in whichever layout it was
-  handed over; `None` while unset) and hence `Nr`, `Nt` (`Op.channel`).
+  handed over; `None` while unset) and hence `Nr`, `Nt` (`Op.channel`), the stored
+  `_noise_var` (`Op.noiseVar`) and `getNumberOfLayers()` (`Op.layers`).
 
 The channel reaches the object in three ways: the constructor argument (`construct`: the
 constructor calls the class's own `set_channel_matrix`), `set_channel_matrix` on an object
@@ -75,15 +76,18 @@ inductive Out (α : Type)
   | mat (m n : Nat) (A : Mat α m n)
   | vec (n : Nat) (v : Vec α n)
   | two (m n : Nat) (A : Mat α m n) (p q : Nat) (B : Mat α p q)
+  | nat (k : Nat)
 
 inductive Op (α : Type)
   | setChannel (c : ChanArg α)
   | setNoiseVar (v : Option α)
   | encode (n : Nat) (x : Vec α n)
   | decode (nr L : Nat) (Y : Mat α nr L)
-  | filters (v : α)
+  | filters (v : Option α)
   | sinr (v : α)
   | channel
+  | noiseVar
+  | layers
 
 /-- the object state: `_channel` (`None` until a channel is set) and `_noise_var` (`0.0` and
     never read outside the Blast family) -/
@@ -241,6 +245,11 @@ def sinrObs (K : Kernels α) (s : Scheme) (c : Chan α) (v : α) : Out α :=
       | none => .err .IndexError
   | .alamouti => .vec 1 (fun _ => frobNorm c.H * frobNorm c.H / v)
 
+/-- the `noise_var=None` default of `_calc_receive_filter`: `if noise_var is None: noise_var = 0.0` -/
+def nvArg : Option α → α
+  | none => 0
+  | some v => v
+
 /-- one public operation on the object: new state and what the call returns -/
 def step (K : Kernels α) (o : Obj α) : Op α → Obj α × Out α
   | .setChannel c =>
@@ -265,7 +274,7 @@ def step (K : Kernels α) (o : Obj α) : Op α → Obj α × Out α
   | .filters v =>
       (o, match o.chan with
           | some c =>
-              (match precoderOf K o.scheme c, filterOf K o.scheme c v with
+              (match precoderOf K o.scheme c, filterOf K o.scheme c (nvArg v) with
                | .mat m n A, .mat p q B => .two m n A p q B
                | .err e, _ => .err e
                | _, .err e => .err e
@@ -279,6 +288,14 @@ def step (K : Kernels α) (o : Obj α) : Op α → Obj α × Out α
       (o, match o.chan with
           | some c => .mat c.nr c.nt c.H
           | none => .done)
+  | .noiseVar =>
+      (o, if o.scheme.blastFamily then .vec 1 (fun _ => o.nv) else .err .AttributeError)
+  | .layers =>
+      (o, match o.scheme with
+          | .mrt | .alamouti => .nat 1
+          | _ => match o.chan with
+                 | some c => .nat c.nt
+                 | none => .err .AssertionError)
 
 /-- the object after a history -/
 def run (K : Kernels α) (o : Obj α) : List (Op α) → Obj α
